@@ -5,7 +5,7 @@
 From Coq Require Import NArith List String Bool Ascii.
 From Falco Require Import Base.TablesBase Model.ScopeMask Model.LintTables Model.LintOps Model.TablesDomain.
 From Falco Require Import Gen.LintConsts Gen.LintVars Gen.LintDyn Gen.LintFuncs Gen.RefVars Gen.RefFuncs Gen.InterpFuncs.
-From Falco Require Import Gen.ObsVars Gen.ObsFuncs Gen.ObsStmts Gen.ObsOps.
+From Falco Require Import Gen.ObsVars Gen.ObsFuncs Gen.ObsStmts Gen.ObsOps Gen.ObsWide.
 Import ListNotations.
 Local Open Scope N_scope.
 Local Open Scope string_scope.
@@ -90,11 +90,24 @@ Definition gaps_func_table : list gap_row :=
                       | Some g => if interp_func_agrees (snd kv) g then [] else [("func-table", fst kv, "", 1)]
                       | None => [("func-table", fst kv, "", 1)] end) lint_func_flat.
 
+(* annotations of any width: model vs real linter (and, for statements, vs the documented scopes) *)
+Definition wide_bits (f : N -> bool) : N := bits_of f obs_wide_masks.
+Definition wide_obs (bits : N) : N := bits_of (N.testbit bits) obs_wide_masks.
+Definition gaps_wide : list gap_row :=
+  flat_map (fun r => match r with (n, op, bits) =>
+    row_if "var-wide-model" n op (N.lxor (wide_bits (fun m => lint_var_op gctx n op (lint_mode m))) (wide_obs bits)) end) obs_vars_wide
+  ++ flat_map (fun r => match r with (n, bits) =>
+    row_if "func-wide-model" n "" (N.lxor (wide_bits (fun m => is_some (lint_get_function n (lint_mode m)))) (wide_obs bits)) end) obs_funcs_wide
+  ++ flat_map (fun r => match r with (k, bits) =>
+    row_if "stmt-wide-model" k "" (N.lxor (wide_bits (fun m => lint_stmt k (lint_mode m))) (wide_obs bits))
+    ++ row_if "stmt-wide-ref" k "" (N.lxor (wide_bits (fun m => forallb (ref_stmt k) (scopes_of m))) (wide_obs bits)) end) obs_stmts_wide.
+
 Definition all_gap_rows : list gap_row :=
-  gaps_tables ++ gaps_func_table ++ gaps_vars ++ gaps_var_types ++ gaps_funcs ++ gaps_stmts ++ gaps_ops.
+  gaps_tables ++ gaps_func_table ++ gaps_vars ++ gaps_var_types ++ gaps_funcs ++ gaps_stmts ++ gaps_ops ++ gaps_wide.
 
 Definition domain_sizes : list (string * N) :=
   [("variables", N.of_nat (List.length lint_var_flat)); ("variable rows", N.of_nat (List.length obs_vars));
    ("functions", N.of_nat (List.length lint_func_flat)); ("function rows", N.of_nat (List.length obs_funcs));
    ("statement rows", N.of_nat (List.length obs_stmts)); ("operator rows", N.of_nat (List.length obs_ops));
-   ("operator cells per row", N.of_nat (List.length op_cells_existing)); ("masks", N.of_nat (List.length masks45))].
+   ("operator cells per row", N.of_nat (List.length op_cells_existing)); ("masks", N.of_nat (List.length masks45));
+   ("wide masks", N.of_nat (List.length obs_wide_masks)); ("wide rows", N.of_nat (List.length obs_vars_wide + List.length obs_funcs_wide + List.length obs_stmts_wide))].
